@@ -20,7 +20,8 @@ RULE_TEXT = (
     "C16.a execute_string effect trace: executes == non-empty non-Semicolon parts, order kept, fresh cursor per "
     "statement, dict flag == (cursor_class == DictCursor), text == part.sql(dialect=snowflake), failure propagates; "
     "C16.b nop: re.match(pattern, substituted text, IGNORECASE); match => only SUCCESS_NOP reaches the engine, no "
-    "parse; no match => normal path."
+    "parse; no match => normal path; C16.c the module-level status statement the nop path executes is never stored "
+    "through by any stage on any statement-kind trace (it stays the plain one-row status query)."
 )
 TRUSTED = ["CPython ast", "sqlglot.parse splits at statement boundaries and yields Semicolon nodes for comment-only parts"]
 
@@ -154,7 +155,16 @@ def rule_nop(ctx):
         ctx.ob("C16.b", "without nop_regexes nothing is matched", bool(ok), "fakesnow/cursor.py")
 
 
+def rule_nop_statement_pristine(ctx):
+    """C16.c: the statement the nop path executes is a module-level constant; "matching statements have no effect" needs it
+    to stay exactly the one-row status query, so no stage may store through it (C19.c's rule, claimed here for the nop path)."""
+    from .c19 import rule_constant_nodes
+
+    rule_constant_nodes(ctx, "C16.c")
+
+
 RULES = [
     ("C16.a", rule_execute_string, ("quick", "thorough")),
     ("C16.b", rule_nop, ("quick", "thorough")),
+    ("C16.c", rule_nop_statement_pristine, ("quick", "thorough")),
 ]
